@@ -195,6 +195,12 @@ func (e *Engine) lockIntrinsic(st *State, fr *Frame, x *ssa.Call, name string, a
 		e.oblige(st, "lockset@acquire", "", ord, BoolT(st.locks[mk] == ""), "mutex is not already held by this call (self-deadlock)", pos)
 		st.locks[mk] = op
 		e.havocGuarded(st, p.L.Ref, gl)
+		if root := st.frames[0]; root.spec != nil {
+			ic := &specCtx{e: e, st: st, env: e.entryEnv(root), heaps: st.heaps, oldHeaps: st.heaps, pkg: root.fn.Pkg}
+			for _, li := range root.spec.LockInvs {
+				st.assume(ic.evalBool(li.E))
+			}
+		}
 		st.cs = append(st.cs, critSection{mode: op, mutex: mk, pre: copyHeaps(st.heaps), open: true})
 	case "uW", "uR":
 		want := "W"
@@ -202,6 +208,16 @@ func (e *Engine) lockIntrinsic(st *State, fr *Frame, x *ssa.Call, name string, a
 			want = "R"
 		}
 		e.oblige(st, "lockset@release", "", ord, BoolT(st.locks[mk] == want), "mutex is held in the mode being released", pos)
+		if root := st.frames[0]; root.spec != nil && op == "uW" {
+			ic := &specCtx{e: e, st: st, env: e.entryEnv(root), heaps: st.heaps, oldHeaps: st.heaps, pkg: root.fn.Pkg, goal: true}
+			for i, li := range root.spec.LockInvs {
+				lbl := li.Label
+				if lbl == "" {
+					lbl = fmt.Sprint(i)
+				}
+				e.oblige(st, "lockinv@release", lbl, ord, ic.evalBool(li.E), "invariant of the guarded state re-established before the mutex is released: "+li.Text, pos)
+			}
+		}
 		st.locks[mk] = ""
 		for i := len(st.cs) - 1; i >= 0; i-- {
 			if st.cs[i].open && st.cs[i].mutex == mk {
